@@ -21,7 +21,7 @@ CONSTANTS
 %(extra)s
 CHECK_DEADLOCK FALSE
 """
-FIXED = '{"numchips", "trackopt"}'
+FIXED = '{"numchips", "trackopt", "dumper"}'
 
 ASSUME = [
     "harness/drive_settings.cpp reads the getter-less settings (scale modulators, soft pan, PCM-rate mode, device id, loop/tempo/"
@@ -38,7 +38,7 @@ ASSUME = [
 
 def model_phase(q):
     runs = []
-    for (depth, fix, dumper, inv) in ([(4, FIXED, "FALSE", True)] if q else [(5, FIXED, "FALSE", True), (4, FIXED, "TRUE", False)]):
+    for (depth, fix, dumper, inv) in ([(4, FIXED, "TRUE", True)] if q else [(5, FIXED, "TRUE", True)]):
         cfg = checks.write_cfg("SettingsMC_%d_%s.cfg" % (depth, dumper), MC_CFG % {
             "depth": depth, "emit": 0, "fix": fix, "dumper": dumper,
             "extra": ("INVARIANT NoBad\n" if inv else "ACTION_CONSTRAINT Report\n") + "CONSTRAINT DepthBound\nVIEW View"})
